@@ -361,7 +361,9 @@ func (m *Variant) Encode() ([]byte, error) {
 
 	m.encode(buf, reflect.ValueOf(m.value))
 
-	if m.Has(VariantArrayDimensions) {
+	// the dimensions are only part of the encoding of an array
+	// (Decode does not read them for a scalar either)
+	if m.Has(VariantArrayValues) && m.Has(VariantArrayDimensions) {
 		buf.WriteInt32(m.arrayDimensionsLength)
 		for i := 0; i < int(m.arrayDimensionsLength); i++ {
 			buf.WriteInt32(m.arrayDimensions[i])
